@@ -8,7 +8,7 @@ from twisted._threads import _pool as _poolmod
 from twisted._threads._threadworker import StopThread
 from twisted.python import threadpool as _tp
 
-HEADLINE = "TwistedProps.C49.worker_holds_at_most_one_task"
+HEADLINE = "TwistedProps.C49.task_conservation"
 RULE = ("op histories over Team.do/grow/shrink/quit, limit changes, ThreadPool.start/stop/adjustPoolsize/"
         "callInThreadWithCallback/startAWorker/stopAWorker, interleaved with schedule steps (coordinator performs one, "
         "worker i performs one, k-th enabled queue performs one) and a stream of set.pop() choices; exhaustive small "
@@ -16,6 +16,10 @@ RULE = ("op histories over Team.do/grow/shrink/quit, limit changes, ThreadPool.s
 ASSUMES = [
     "grow(n)/shrink(n) are called with n >= 0 (range(n) of a negative n is empty, as for 0)",
     "tasks do not call back into the pool while running (a task that submits is the submission op placed right after its step)",
+    "the 'unless no worker could ever be created' clause is proved for histories whose limit function changes only through "
+    "ThreadPool.start/stop/adjustPoolsize (a raw change is never signalled to Team: silent_limit_raise_starves) and for states "
+    "before quit() (after quit a refused start() can raise the limit without a grow: start_after_stop_leaves_backlog); "
+    "ThreadPool is constructed with 0 <= minthreads <= maxthreads (its constructor asserts it)",
     "real threading primitives (threading.Lock in LockWorker, queue.Queue + Thread in ThreadWorker) implement the exclusive-FIFO "
     "worker contract that MemoryWorker implements literally; the real-thread stress runs are supporting evidence only",
 ]
@@ -27,13 +31,17 @@ TRUSTED = [
 ]
 MANIFEST = {
     "text": "Lean theorems (TwistedProps/C49.lean) over every history of Team/ThreadPool operations, raw limit changes, schedule "
-            "steps and set.pop() choices (inductive invariant): no queue item ever raises, a worker holds at most one task and is "
+            "steps and set.pop() choices (inductive invariants): no queue item ever raises, a worker holds at most one task and is "
             "neither idle nor quit while it does, _busyCount is exact, every worker creation happened with busy+idle below the limit, "
-            "the coordinator stops only after quit with nothing busy or queued, quit is permanent and later submissions are refused. "
-            "PARTIAL: 'every accepted task runs exactly once' and 'after quit all workers stop once quiescent' are not proved in Lean; "
-            "they are evaluated on the real Team/pool()/ThreadPool objects by the oracle on every run (random + exhaustive small "
-            "histories), with the model tied to _team.py/_memory.py/_pool.py/threadpool.py by stepping the real objects with the "
-            "same schedule.",
+            "the coordinator stops only after quit with nothing busy or queued, quit is permanent and later submissions are refused; "
+            "task conservation (#calls + #in flight in backlog/worker queues/coordinator queue = #accepted for every task id, so no "
+            "task is lost or runs twice); at a quiescent state every accepted task has run or is in the backlog, and a backlog "
+            "implies no live worker (idle empty, nothing busy, every worker quit); quit requested and quiescent implies the "
+            "coordinator and every worker are quit. For histories whose limit changes go through ThreadPool (no raw limit op): "
+            "before quit a backlog exists only while limitedWorkerCreator refuses or adjustPoolsize's grow is queued, so a quiescent "
+            "pre-quit state with limit > 0 has run every task exactly as often as accepted. The model is tied to "
+            "_team.py/_memory.py/_pool.py/threadpool.py by stepping the real objects with the same schedule; the oracle evaluates "
+            "the same clauses on the real objects on every run.",
     "note": "partial for real threads: Lock/Queue/Thread are assumed to implement the worker contract; stress runs with real "
             "threads only check the schedule-independent observables",
     "technique": "Lean 4 proof (inductive invariant over all op histories) + differential tie with explicit schedules",
@@ -611,6 +619,9 @@ def corpus():
         {"mode": "pool", "min": 1, "max": 2, "choices": [], "ops": [["p", 0, False], ["S"], ["p", 1, True], ["p", 2, False]] + _drain(20) + [["X"], ["p", 3, False]] + _drain(8)},
         {"mode": "pool", "min": 0, "max": 3, "choices": [2, 1], "ops": [["S"], ["p", 0, False], ["p", 1, False], ["p", 2, False]] + _drain(9) + [["j", 0, 1]] + _drain(9) + [["X"]] + _drain(9)},
         {"mode": "pool", "min": 2, "max": 2, "choices": [], "ops": [["S"], ["j", 3, 2], ["j", None, 1], ["X"], ["X"], ["S"]] + _drain(9)},
+        # TwistedProps.C49.start_after_stop_leaves_backlog / starved / served
+        {"mode": "pool", "min": 0, "max": 3, "choices": [], "ops": [["p", 7, False], ["c"], ["X"], ["S"], ["c"]]},
+        {"mode": "pool", "min": 0, "max": 3, "choices": [], "ops": [["p", 7, False], ["c"], ["S"], ["a", 0], ["a", 0], ["a", 0]]},
         {"mode": "threads", "min": 0, "max": 3, "tasks": 40, "seed": 1, "prestart": True},
     ]
 
